@@ -29,6 +29,7 @@ import json
 import os
 import shutil
 import subprocess
+import threading
 import time
 
 from vplib import common, hist
@@ -39,7 +40,23 @@ ID_B = "urn:x/ü 1"          # non-ASCII id with a slash and a space: the lock n
 ID_UP = "obj-up"               # OCFL 1.0 object in a 1.1 repository (for upgrade)
 ID_ST = "obj-staged"           # staged, never committed
 ID_NEW = "obj-new"             # does not exist in the template
-IDS = [ID_A, ID_B, ID_UP, ID_ST, ID_NEW]
+
+
+def _prefix_pair():
+    """two ids whose sha256 digests share the first n-tuple: their object roots (staging and main, layout
+    0004) live below the same first-level directory, which commit removes when it becomes empty"""
+    seen = {}
+    for n in range(100000):
+        i = "p-%d" % n
+        h = hashlib.sha256(i.encode()).hexdigest()[:3]
+        if h in seen:
+            return seen[h], i
+        seen[h] = i
+    raise RuntimeError("no prefix collision")
+
+
+ID_P1, ID_P2 = _prefix_pair()    # P1: staged, never committed; P2: does not exist
+IDS = [ID_A, ID_B, ID_UP, ID_ST, ID_NEW, ID_P1, ID_P2]
 KEY = {i: n + 1 for n, i in enumerate(IDS)}
 META = ["-n", "C13", "-a", "mailto:c13@example.org"]
 
@@ -54,10 +71,13 @@ class Tpl:
         self.ctx, self.name, self.ext = ctx, name, ext_staging
         self.dir = os.path.join(ctx.tmp, "tpl-" + name)
         self.n = 0
+        self.mu = threading.Lock()
 
     def W(self, tag):
-        self.n += 1
-        return os.path.join(self.ctx.tmp, "w-%s-%s-%d" % (self.name, tag, self.n))
+        with self.mu:
+            self.n += 1
+            n = self.n
+        return os.path.join(self.ctx.tmp, "w-%s-%s-%d" % (self.name, tag, n))
 
     def copy(self, tag):
         w = self.W(tag)
@@ -105,8 +125,9 @@ def build_template(ctx, env, name, ext):
     for oid in (ID_A, ID_B):
         run("cp", oid, src(w, "c.txt"), "--", "c.txt")          # staged new file
         run("rm", oid, "b.txt")                                 # staged removal
-    run("new", ID_ST)
-    run("cp", ID_ST, src(w, "a.txt"), "--", "a.txt")
+    for oid in (ID_ST, ID_P1):
+        run("new", oid)
+        run("cp", oid, src(w, "a.txt"), "--", "a.txt")
     if os.listdir(st.locks_dir(root_of(w), stg_of(w, ext))):
         raise common.BuildError("template %s: lock left behind while building" % name)
     return t
@@ -205,7 +226,9 @@ COVERAGE = [   # (operation, object id)
     ("new", ID_NEW), ("new256", ID_NEW), ("cp", ID_A), ("cp2", ID_B), ("cpr", ID_A), ("cpi", ID_A), ("cpi_staged", ID_A),
     ("mv", ID_A), ("mvi", ID_A), ("mvi_old", ID_B), ("rm", ID_A), ("rm_staged", ID_B), ("rmr", ID_A),
     ("reset", ID_A), ("reset_rm", ID_B), ("commit", ID_A), ("commit_pretty", ID_B), ("commit", ID_ST),
-    ("upgrade", ID_UP), ("cp", ID_ST), ("cp", ID_UP),
+    ("upgrade", ID_UP), ("cp", ID_ST), ("cp", ID_UP), ("new", ID_P2), ("commit", ID_P1),
+    # objects without a staged version: the operation creates it (inside the lock)
+    ("rm", ID_UP), ("cpi", ID_UP), ("mvi_old", ID_UP), ("rmr", ID_UP), ("reset_rm", ID_UP),
     # failing
     ("new", ID_A), ("f_cp_missing", ID_A), ("f_cpi_missing", ID_A), ("f_mvi_missing", ID_B), ("f_rm_nomatch", ID_A),
     ("f_reset_nomatch", ID_A), ("f_cp_conflict", ID_A), ("f_cp_dir_norec", ID_A), ("f_upgrade_down", ID_A),
@@ -420,6 +443,7 @@ def run_exclusion_case(tpl, env, a, b, point, phase, kmut_before, namut, trace_b
     if trb is not None:
         evb, _ = events_of(trb, w, ext, tid=1)
         obs["b_events"] = evb
+        obs["b_oracle"] = bracket_oracle(trb, w, ext, not trb.killed)
         obs["b_effective_ops"] = [o for o in trb.ops if any(isinstance(x, str) and (st.common_under(x, root_of(w)) or (ext and st.common_under(x, stg_of(w, ext)))) for x in o[1:])]
         obs["b_ops"] = st.fmt_ops(trb.ops, strip=w)[:30]
         merged = sorted(eva + evb, key=lambda e: (e[3] or 0))
@@ -436,9 +460,7 @@ def run_race(tpl, env, ops_, oid):
     ext = tpl.ext
     argvs = [cmd(w, ext, *op_args(w, o, oid)) for o in ops_]
     procs = []
-    go = time.time() + 0.05
-    # a tiny shell-free barrier: every process is started by the same loop as fast as possible
-    for a in argvs:
+    for a in argvs:                       # started by one loop as fast as possible
         procs.append(subprocess.Popen(a, env=env, cwd=w, stdout=subprocess.PIPE, stderr=subprocess.PIPE, text=True))
     res = []
     for p in procs:
@@ -563,9 +585,6 @@ def run(ctx):
             rec = run_coverage_case(tpl, env, a[0], a[1])
             recs[(tpl.name, a[0], a[1])] = rec
         inside, before, unlink = sample_points(ctx, rec, npts)
-        pts_all = [tuple(p) for p in rec["points"]]
-        # number of object-touching calls of A before each point (for the model's hold position)
-        wrec = None
         cands = [(p, "inside") for p in inside] + ([(unlink, "inside")] if unlink else []) + ([(before, "before")] if before else [])
         for n, (pt, phase) in enumerate(cands):
             ex_jobs.append((tpl, a, b, pt, phase, rec, (n % trace_every == 0), lib and phase == "inside" and n == 0))
@@ -576,17 +595,15 @@ def run(ctx):
         add_pair(tpls[(n + 1) % 2], (oa, ID_A), (ob if ob not in ("new",) else "cp", ID_B), 2 if quick else 10 ** 6, 3)
     add_pair(tpls[0], ("new", ID_NEW), ("new256", ID_NEW), 3 if quick else 10 ** 6, 1)
     add_pair(tpls[1], ("upgrade", ID_UP), ("cp", ID_UP), 3 if quick else 10 ** 6, 2)
+    # different objects below the same n-tuple directory: commit removes the emptied ancestors that new creates
+    add_pair(tpls[0], ("new", ID_P2), ("commit", ID_P1), 4 if quick else 10 ** 6, 2)
+    add_pair(tpls[1], ("commit", ID_P1), ("new", ID_P2), 4 if quick else 10 ** 6, 2)
+    add_pair(tpls[0], ("cp", ID_UP), ("rm", ID_UP), 2 if quick else 10 ** 6, 1)        # B would have to create the staged version
+    add_pair(tpls[1], ("cpi", ID_UP), ("mvi_old", ID_UP), 2 if quick else 10 ** 6, 1)
     add_pair(tpls[0], ("commit", ID_ST), ("cp", ID_ST), 3 if quick else 10 ** 6, 2)
-
-    def kmut_counts(rec, pt):
-        """(object-touching calls of A before the point, total) from the recording's events and points"""
-        # events carry time stamps; the point's position is taken from the order of points
-        return None
 
     def do_ex(j):
         tpl, a, b, pt, phase, rec, trace_b, lib_b = j
-        # hold position in the model: number of KMut events of A (on its own object) before the held call
-        pts = [tuple(p) for p in rec["points"]]
         na = rec["nmut"]
         o = None
         for attempt, d in enumerate((1500000, 3000000, 6000000)):
@@ -598,6 +615,8 @@ def run(ctx):
     with concurrent.futures.ThreadPoolExecutor(max_workers=workers) as ex:
         exobs = list(ex.map(do_ex, ex_jobs))
 
+    if exobs and not any(o["achieved"] for o in exobs):
+        raise common.BuildError("delay injection did not hold any process inside its window (strace / ptrace not usable?)")
     for o in exobs:
         bump("exclusion_cases")
         if not o["achieved"]:
@@ -718,6 +737,8 @@ def run(ctx):
             else:
                 if o["b_code"] == 3:
                     msg = "B was refused although no operation on its object held the lock (%s)" % o["b_err"]
+            if not msg and o.get("b_oracle"):
+                msg = "B: " + o["b_oracle"]
             if not msg and o["left"]:
                 msg = "lock file left behind after both commands returned: %r" % (o["left"],)
             if not msg and o["a_code"] == 3:
